@@ -54,6 +54,14 @@ def boundary_cases():
         add('push520/PUSHDATA4/%s' % POS[d], bytes([OP_PUSHDATA4]) + n.to_bytes(4, 'little') + b'x' * n, flags=STANDARD & ~F["MINIMALDATA"])
         # inside a P2SH redeem script the push is not pre-parsed: must fail with PUSH_SIZE at execution
         # (the redeem script itself is limited to 520 bytes, so only L-1.. cases that fit are reachable)
+    # a scriptPubKey taken from a transaction is not pre-parsed: the push limit is enforced by execution, for EVERY decoded
+    # operation - also inside a branch that is not executed
+    for d in (-1, 0, 1):
+        n = 520 + d
+        big = bytes([OP_PUSHDATA2, n & 255, n >> 8]) + b'z' * n
+        add('push520/unexecuted-branch-in-scriptPubKey/%s' % POS[d], bytes([OP_0]), succ=bytes([OP_IF]) + big + bytes([OP_DROP, OP_ENDIF, OP_1]), svs=[BASE])
+        add('push520/executed-in-scriptPubKey/%s' % POS[d], bytes([OP_1]), succ=bytes([OP_IF]) + big + bytes([OP_DROP, OP_ENDIF, OP_1]), svs=[BASE])
+        add('push520/unexecuted-else-in-scriptPubKey/%s' % POS[d], bytes([OP_1]), succ=bytes([OP_IF, OP_1, OP_ELSE]) + big + bytes([OP_ENDIF]), svs=[BASE])
     for d in (-1, 0, 1):
         n = 75 + d
         add('push-direct/%d' % n, (bytes([n]) if n <= 75 else bytes([OP_PUSHDATA1, n])) + b'y' * n)
@@ -83,6 +91,14 @@ def boundary_cases():
             keys = b''.join(push_only(bytes([2]) + bytes([k + 1]) * 32) for _ in range(k))
             add('ops201/multisig-%d-keys/%s' % (k, POS[d]), bytes([OP_NOP]) * (n - 1 - k) + bytes([OP_0, OP_0]) + keys + push_num(k) + bytes([OP_CHECKMULTISIG]),
                 svs=[BASE, WITNESS_V0], flags=STANDARD)
+        # signatures that are actually tried against the keys: every key still counts once, and the operations AFTER the
+        # multisig must see the full count
+        for k in (1, 2, 5, 20):
+            keys = b''.join(push_only(bytes([2]) + bytes([k + 7]) * 32) for _ in range(k))
+            body = bytes([OP_0, OP_0, OP_1]) + keys + push_num(k) + bytes([OP_CHECKMULTISIG, OP_DROP])     # one (empty) signature tried against all k keys
+            counted = 1 + k + 1
+            add('ops201/multisig-%d-keys-1-sig-then-nops/%s' % (k, POS[d]), body + bytes([OP_NOP]) * (n - counted) + bytes([OP_1]), svs=[BASE, WITNESS_V0], flags=STANDARD)
+            add('ops201/two-multisigs-%d-keys/%s' % (k, POS[d]), body + body + bytes([OP_NOP]) * (n - 2 * counted) + bytes([OP_1]), svs=[BASE, WITNESS_V0], flags=STANDARD)
         # op count resets between scriptSig / scriptPubKey
         add('ops201/across-scripts/%s' % POS[d], bytes([OP_1]) * 3, succ=bytes([OP_NOP]) * n, svs=[BASE])
         add('ops201/scriptsig-then-201/%s' % POS[d], bytes([OP_NOP]) * 150 + bytes([OP_1]), succ=bytes([OP_NOP]) * n, svs=[BASE], flags=STANDARD)
